@@ -935,11 +935,15 @@ def _render_context(tmpl, callable_, context, *args, **kwargs):
 
         _exec_template(render_from_base, context, args=args, kwargs=kwargs)
     else:
-        # otherwise, call the actual rendering method specified
-        inherit, lclcontext = _populate_self_namespace(context, tmpl.parent)
+        # otherwise, call the actual rendering method specified; as above,
+        # locating the inherited templates is part of the render
+        def render_def(context, *args, **kwargs):
+            _populate_self_namespace(context, tmpl.parent)
+            return callable_(context, *args, **kwargs)
+
         # a def writes its content and returns '', except that a buffered
         # def returns its content instead of writing it
-        result = _exec_template(callable_, context, args=args, kwargs=kwargs)
+        result = _exec_template(render_def, context, args=args, kwargs=kwargs)
         if result and isinstance(result, str):
             context.write(result)
 
